@@ -81,7 +81,51 @@ def _first(*checks):
 # swap (None where the operation has no retry-until-admissible loop)
 
 
+def op_rewire_directed(case, seed):
+    """Degree-preserving rewiring of a DIRECTED network: every node keeps its
+    in-degree and its out-degree, the result is loop-free with 0/1 entries."""
+    n = case["n"]
+    A0 = np.zeros((n, n), dtype=int)
+    for i, j in case["dedges"]:
+        A0[i, j] = 1
+    it = case["it"]
+    name = "Network.randomly_rewire"
+    out0, in0 = A0.sum(axis=1).tolist(), A0.sum(axis=0).tolist()
+    if A0.sum() < 2:
+        return None, None, 0, "fewer than two links: nothing to rewire", None
+
+    def run_fn(cr):
+        from pyunicorn.core import Network
+        net = Network(adjacency=A0.copy(), directed=True, silence_level=3)
+        with ref.igraph_rng(cr, seed):
+            def f():
+                net.randomly_rewire(it)
+                return ("ok", np.array(net.adjacency, dtype=int), int(net.N))
+            return _guard(f)
+
+    def judge(o):
+        if o[0] == "exc":
+            return [(name + ":raises:" + o[1], o[2], o[2], "rewired network")]
+        A1, N1 = o[1], o[2]
+        if N1 != n or A1.shape != (n, n):
+            return [(name + ":node-count:directed", "network has %d nodes "
+                     "after rewiring, had %d" % (N1, n), N1, n)]
+        if np.diag(A1).any() or not np.isin(A1, (0, 1)).all():
+            return [(name + ":not-simple:directed", "loops or entries other "
+                     "than 0/1", A1, "simple directed graph")]
+        if A1.sum(axis=1).tolist() != out0:
+            return [(name + ":out-degree:directed", "out-degree sequence "
+                     "changed", A1.sum(axis=1).tolist(), out0)]
+        if A1.sum(axis=0).tolist() != in0:
+            return [(name + ":in-degree:directed", "in-degree sequence "
+                     "changed", A1.sum(axis=0).tolist(), in0)]
+        return []
+    return run_fn, judge, IGRAPH_HORIZON, None, None
+
+
 def op_rewire(case, seed):
+    if case.get("dedges") is not None:
+        return op_rewire_directed(case, seed)
     A0 = _A(case)
     n = len(A0)
     it = case["it"]
@@ -752,7 +796,23 @@ def run(ctx):
             if h not in gr:
                 gr.append(h)
     cases = [mk("rewire", g, {"it": it}, ig) for g in gr for it in its]
-    ctx.explore("rewire", cases, chunk=4, desc="Network.randomly_rewire")
+    # directed networks: all isomorphism classes on 3 and 4 nodes with at
+    # least two links (in- and out-degree sequences differ on most of them)
+    from ..domains import iso as _iso, adj as _adj
+    for nn in (3, 4):
+        for (_, _, m) in _iso(nn, True):
+            Ad = _adj(nn, True, m)
+            if Ad.sum() < 2:
+                continue
+            de = [[int(i), int(j)] for i, j in zip(*np.nonzero(Ad))]
+            for it in ((1, 2) if nn == 4 else its):
+                c = {"op": "rewire", "n": nn, "dedges": de, "it": it,
+                     "seed": seed}
+                c.update(ig)
+                cases.append(c)
+    ctx.explore("rewire", cases, chunk=4, desc="Network.randomly_rewire "
+                "(undirected iso(5)+connected 6-node graphs; directed "
+                "iso(3..4))")
     # 2. geographical models
     cases = []
     api = dict(bmax=2, budget=400 if thorough else 200)
